@@ -313,6 +313,11 @@ func (p *proxyConn) tunnel(name string, res *http.Response, crw io.ReadWriteClos
 
 	ctx := res.Request.Context()
 
+	// The tunnel is not part of the request, the read deadline of the request (ReadTimeout) must not end it.
+	if deadlineErr := p.conn.SetReadDeadline(time.Time{}); deadlineErr != nil {
+		log.Error(ctx, "can't clear read deadline", "error", deadlineErr)
+	}
+
 	log.Debug(ctx, "switched protocols, proxying traffic", "name", name)
 	bicopy(ctx,
 		copier{"upstream " + name, crw, p.conn},
